@@ -449,8 +449,12 @@ func runC10(seed uint64, n int, out, stats string, args []string) {
 	dist := map[string]int{}
 	// scripted scenario (seed independent): the recorded finding c10-restart-after-initchain
 	if what := c10InitChainScenario(); what != "" {
-		seenKey["c10-restart-after-initchain"]++
-		mon = append(mon, MonitorFailure{What: "C10: " + what, Key: "c10-restart-after-initchain",
+		key := "c10-restart-after-initchain"
+		if strings.Contains(what, "panics") {
+			key = "c10-restart-after-initchain-panics" // the recorded finding is a different app hash, not a crash
+		}
+		seenKey[key]++
+		mon = append(mon, MonitorFailure{What: "C10: " + what, Key: key,
 			Replay: "vharness c10 (scripted scenario restart-after-initchain: fixed genesis with 3 equal validators, InitChain, process re-created on the same stores, first block)"})
 	}
 	crashPoints, recovered, replayed := 0, 0, 0
@@ -547,7 +551,10 @@ func runC10(seed uint64, n int, out, stats string, args []string) {
 				regionCount[region]++
 				fail := func(generic, what string) {
 					key := generic
-					if region == "before-height" && bidx == 0 && generic != "c10-info-not-replayable" {
+					// (a different state re-executed: a different app hash, or Commit refusing to overwrite the tree version the
+					// crashed Commit had saved; any other panic of the recovered node is not that finding)
+					if region == "before-height" && bidx == 0 && generic != "c10-info-not-replayable" &&
+						(generic != "c10-recovery-panic" || strings.Contains(what, "was already saved to different hash")) {
 						// the recorded finding: a process restarted between InitChain and the first Commit
 						key = "c10-restart-after-initchain"
 					}
